@@ -78,9 +78,13 @@ def extractTop (h : Heap) : Option (Heap × Bool × Int) :=
       | some d' => some ({ h with data := d' }, true, bestval)
     | _, _ => none
 
-/-- `esl_heap_IExtractTop(hp, NULL)` ("to simply delete the topmost value, pass NULL for opt_val").
-    As written, `if (hp->n == 0) { *opt_val = 0; return eslEOD; }` stores through the NULL pointer: fault. -/
+/-- `esl_heap_IExtractTop(hp, NULL)` ("to simply delete the topmost value, pass NULL for opt_val"):
+    `if (hp->n == 0) { if (opt_val) *opt_val = 0; return eslEOD; }` … `if (opt_val) *opt_val = bestval;` -/
 def extractTopNull (h : Heap) : Option (Heap × Bool) :=
+  (extractTop h).map fun (h', ok, _) => (h', ok)
+
+/-- the code before the fix: the empty-heap branch stored through the NULL pointer (kept for the regression theorem) -/
+def extractTopNullUnguarded (h : Heap) : Option (Heap × Bool) :=
   if h.data.size = 0 then none
   else (extractTop h).map fun (h', ok, _) => (h', ok)
 
